@@ -535,8 +535,26 @@ func c12Aliasing(c *Ctx) {
 	}
 }
 
-func c12OCRACases(c *Ctx, emit func(c12OCRACase)) {
+func c12OCRACases(c *Ctx, emit0 func(c12OCRACase)) {
 	rng := c.RNG.Fork(12)
+	// half of the fields get a spare capacity chosen so that the slice's total capacity is a round number (the sizes
+	// scratch buffers and pools tend to have), the others keep the spare drawn below
+	rr := c.RNG.Fork(1212)
+	emit := func(k c12OCRACase) {
+		in := k.Base.Input.ref()
+		lens := [5]int{len(in.Counter), len(in.Challenge), len(in.Password), len(in.Session), len(in.Timestamp)}
+		for f := 0; f < 5; f++ {
+			if rr.Bool() {
+				continue
+			}
+			target := gen.Pick(rr, []int{8, 16, 32, 64, 128, 256, 512, 1024, 2048, 4096})
+			if target > lens[f] {
+				k.Spare[f] = target - lens[f]
+				k.Shapes[f] = 1 // capacity ends exactly at the round number
+			}
+		}
+		emit0(k)
+	}
 	lens := []int{0, 7, 8, 9, 19, 20, 21, 31, 32, 33, 63, 64, 65, 127, 128, 129}
 	hb := handBuiltSuites(rng, []string{"OCRA-1:c12"})
 	for _, s := range hb {
